@@ -231,14 +231,6 @@ func (c01) Run(ctx *RunCtx) {
 					if e.HasRange {
 						ranged++
 					}
-					if e.HasRange && e.L1 == 0 && e.C1 == 0 && e.L2 == 0 && e.C2 == 0 {
-						// open finding C01-zero-range-insert-replaces-document: the server
-						// now holds another text than the client, so positions of further
-						// changes in this notification would be meaningless (they may even
-						// fall inside surrogate pairs of the server's text); the explain
-						// predicate stays exact by ending the notification here.
-						break
-					}
 				}
 				if doc.Journal {
 					doc.Journal = false // raw edit: markers no longer tracked
